@@ -103,6 +103,7 @@ def prepare(tier):
         shutil._HAS_FCOPYFILE = False
     # solo step count: the yardstick of the bounded-liveness oracle
     solo = {}
+    G["solo"] = {}
     for model in sorted(REQUESTS):
         cfg = base_config([{"name": "P0", "loads": [[model, "double"]], "start_at": 0}])
         cfg["fresh"] = None
@@ -116,6 +117,14 @@ def prepare(tier):
         G.setdefault("event_steps", {})[model] = pos
     G["solo"] = solo
     G["solo_max"] = max(solo.values())
+    # a packaging run on its own (how many steps it takes; it must work on this tree)
+    cfg = base_config([{"name": "K0", "loads": [], "start_at": 0, "precompile": [["sphere", "double"]]}])
+    cfg["fresh"] = None
+    res = run_one(cfg)
+    if res["violations"] or res["harness_error"]:
+        raise baton.HarnessError("a solo packaging run does not work on this tree: %r"
+                                 % (res["violations"] or res["harness_error"]))
+    solo["__packager__"] = res["steps"]
 
 
 # --------------------------------------------------------------------- world
@@ -154,6 +163,8 @@ class World(object):
         self.cache_dir = os.path.join(run_dir, "cache")
         self.tmp_dir = os.path.join(run_dir, "tmp")
         os.makedirs(self.tmp_dir)
+        self.pack_cache = os.path.join(run_dir, "packcache")     # a packaging program's own cache
+        os.makedirs(self.pack_cache)
         self.roots = [(run_dir, "<S>"), (G["root"], "<G>")]
         self.sched = None
         self.violations = []
@@ -179,7 +190,8 @@ class World(object):
     # swapped at every hand-over: each process sees its own copy (pristine at
     # start, or - for a process forked from another - a copy of the parent's
     # at the moment of the fork).
-    SEAM_NAMES = ("subprocess", "ct", "os", "tempfile", "SAS_DLL_PATH", "open")
+    SEAM_NAMES = ("subprocess", "ct", "os", "tempfile", "open")
+    PRIVATE_SETTINGS = ("SAS_DLL_PATH",)      # per-process configuration (the environment it was started in)
 
     def _module_data(self):
         import types
@@ -191,7 +203,8 @@ class World(object):
             if isinstance(val, (dict, list, set)) or isinstance(val, _LOCK_TYPES):
                 # (an in-process lock belongs to one process: each simulated process gets its own)
                 out[name] = val
-            elif isinstance(val, (int, float, str, bool, tuple, type(None))) and not name.isupper():
+            elif isinstance(val, (int, float, str, bool, tuple, type(None))) and \
+                    (not name.isupper() or name in self.PRIVATE_SETTINGS):
                 out[name] = val
         return out
 
@@ -633,6 +646,17 @@ def _proc_body(a):
     from sasmodels import core
     from sasmodels.direct_model import call_kernel
     out = []
+    if a.data.get("precompile"):
+        # a packaging run (core.precompile_dlls): a program with its own cache setting builds
+        # libraries for the builtin models into the directory the loaders use as their cache
+        from sasmodels import kerneldll
+        world = a.data["world"]
+        kerneldll.SAS_DLL_PATH = world.pack_cache
+        world.probe("packaging_run_started")
+        a.data["req"] = tuple(a.data["precompile"][0])
+        a.data["phase"] = "start"
+        core.precompile_dlls(world.cache_dir, dtype=a.data["precompile"][0][1])
+        return out
     for model, dtype in a.data["loads"]:
         a.data["req"] = (model, dtype)
         a.data["phase"] = "start"
@@ -729,6 +753,15 @@ def run_one(cfg, decisions=None, keep_events=False):
             return wrapper
         xdev_saved = (os.rename, os.replace, os.link)
         os.rename, os.replace, os.link = _guard(os.rename), _guard(os.replace), _guard(os.link)
+    # (a packaging run builds "all builtin models": here, the ones its specification names)
+    from sasmodels import core as _core
+    real_list_models = _core.list_models
+
+    def _list_models(*a_, **kw_):
+        me = sched.current() if sched is not None else None
+        pre = me.data.get("precompile") if me is not None else None
+        return [m for m, _ in pre] if pre else real_list_models(*a_, **kw_)
+    _core.list_models = _list_models
     run_prefix = run_dir + os.sep
     restore_hooks = seams.install_global_hooks(world, os_proxy, lambda p: p.startswith(run_prefix))
     harness_error = None
@@ -754,6 +787,9 @@ def run_one(cfg, decisions=None, keep_events=False):
             if spec.get("forked_from"):
                 a.data["forked_from"] = spec["forked_from"]
             a.data["release_reload"] = bool(spec.get("release_reload"))
+            if spec.get("precompile"):
+                a.data["precompile"] = [tuple(x) for x in spec["precompile"]]
+                a.data["world"] = world
             a.data["linger"] = int(spec.get("linger") or 0)
             procs.append(a)
         sched.run()
@@ -765,7 +801,7 @@ def run_one(cfg, decisions=None, keep_events=False):
         if wanted and harness_error is None and phase1_reason == "quiescent":
             reqs = []
             for spec in cfg["actors"]:
-                for x in spec["loads"]:
+                for x in list(spec["loads"]) + list(spec.get("precompile") or []):
                     if tuple(x) not in reqs:
                         reqs.append(tuple(x))
             sched.events.append((sched.step, "-", "quiescent", None))
@@ -821,7 +857,7 @@ def run_one(cfg, decisions=None, keep_events=False):
                 if f.endswith(".so")]
         if libs and world.cc_count == 0:
             harness_error = "a library appeared without the compiler seam being entered"
-        if any(a.state == "done" and a.exc is None for a in procs) and world.loads == 0:
+        if any(a.state == "done" and a.exc is None and a.data.get("loads") for a in procs) and world.loads == 0:
             harness_error = "a kernel was evaluated without the loader seam being entered"
     except baton.HarnessError as exc:
         harness_error = str(exc)
@@ -833,6 +869,7 @@ def run_one(cfg, decisions=None, keep_events=False):
         world.restore_pristine()
         _atexit.register = real_register
         restore_hooks()
+        _core.list_models = real_list_models
         if xdev_saved is not None:
             os.rename, os.replace, os.link = xdev_saved
         kd.SAS_DLL_PATH = saved_path
@@ -935,8 +972,18 @@ def gen_config(run_seed, tier):
         k = c.choice([1, 2, 2, 3, 4])
         cuts = sorted(c.random() for _ in range(k - 1))
         plans.append({"cuts": cuts, "mode": c.choice(["append", "append", "sparse"]), "fail": None})
+    pk_ = st["packager"]
+    packager = None
+    if pk_.random() < 0.12:
+        # a packaging run into the same directory, alongside the loaders
+        packager = {"name": "K0", "loads": [], "start_at": pk_.randint(0, solo_max),
+                    "precompile": [[pk_.choice(["sphere", "cylinder"]), "double"]]}
+        actors.append(packager)
     cfg = {"actors": actors, "policy": policy, "sched_seed": st["schedule"].getrandbits(48),
            "cc_plans": plans, "kills": [], "fresh": "auto", "xdev": c.random() < 0.4}
+    if packager and pk_.random() < 0.6:
+        cfg["kills"].append({"target": "K0", "group": pk_.random() < 0.5,
+                             "when": {"step": pk_.randint(1, 2 * solo_max)}})
     # ---- faults: a swarm-style subset; one third of runs are fault-free ----
     if f.random() < 0.67:
         enabled = [k for k in ("kill_group", "kill_parent", "cc_fail", "io_fail") if f.random() < 0.6] \
@@ -978,6 +1025,23 @@ def sweep_configs(tier):
             cfg["policy"] = {"kind": "sticky", "p": 1.0}
             cfg["family"] = "single_crash"
             cfg["xdev"] = bool(step % 2)
+            out.append(cfg)
+    # a packaging run (precompile_dlls into the loaders' directory) killed at every step, alone
+    # and with a loader arriving while it is stopped there
+    psolo = G["solo"].get("__packager__") or (2 * solo)
+    for step in range(1, psolo + 1, 2 * stride):
+        for with_loader in (False, True):
+            actors = [{"name": "K0", "loads": [], "start_at": 0, "precompile": [["sphere", "double"]]}]
+            if with_loader:
+                actors.append({"name": "P0", "loads": [["sphere", "double"]], "start_at": 0})
+            cfg = base_config(actors)
+            cfg["cc_plans"] = [{"cuts": [0.5], "mode": "append", "fail": None}] * 2
+            if with_loader:
+                cfg["fixed_schedule"] = ["K0"] * step + ["P0"] * (3 * G["solo"]["sphere"])
+            else:
+                cfg["policy"] = {"kind": "sticky", "p": 1.0}
+            cfg["kills"] = [{"target": "K0", "group": bool(step % 4 < 2), "when": {"step": step}}]
+            cfg["family"] = "packaging_run_crash"
             out.append(cfg)
     # single pre-emption: P0 paused at step i while P1 runs to completion
     for first, second in (("P0", "P1"), ("P1", "P0")):
